@@ -536,6 +536,16 @@ def _mirror_pair(ctx, prog, k, anti):
             if isinstance(par, ast.Call) and call_name(par) in ("_max", "max", "min") and \
                     {x.id for x in par.args if isinstance(x, ast.Name)} == {hi, lo}:
                 continue
+            # start >= lo and start >= hi: two conjuncts of one conjunction that are each other's image under hi <-> lo
+            conj = par
+            while conj is not None and not (isinstance(conj, ast.BoolOp) and isinstance(conj.op, ast.And)):
+                conj = getattr(conj, "_parent", None) if not isinstance(conj, ast.stmt) else None
+            if conj is not None:
+                texts = {norm_text(oriented(v_)) for v_ in conj.values if any(isinstance(x_, ast.Name) and x_.id in (hi, lo)
+                                                                               for x_ in ast.walk(v_))}
+                swapped = {t_.replace(hi, "\0").replace(lo, hi).replace("\0", lo) for t_ in texts}
+                if texts == swapped:
+                    continue
             bad = n
     if bad is not None:
         ctx.violated(k.fi, bad._parent if hasattr(bad, "_parent") else k.loop, "%s: front extreme %s is used asymmetrically "
